@@ -66,14 +66,35 @@ def make_system(case, sd, tstep, tf, tol=None, extra_events=None):
     return ss
 
 
-def run_to(ss, tfs):
+def run_to(ss, tfs, inspect=False):
     ok = True
     for t in tfs:
         ss.TDS.config.tf = t
         ok = ss.TDS.run()
         if not ok:
             break
+        if inspect:
+            # a user looking at the intermediate result (arrays and a query by variable) before extending the run
+            _ = np.array(ss.dae.ts.t), np.array(ss.dae.ts.x), np.array(ss.dae.ts.y), np.array(ss.dae.ts.xy)
+            ss.dae.ts.get_data(ss.Bus.v)
     return ok
+
+
+def stored_series_consistent(res, ss, tag):
+    """The stored series of the system as a whole: one row per stamp, the last row is the final state."""
+    ts = ss.dae.ts
+    t, X, Y = np.array(ts.t), np.array(ts.x), np.array(ts.y)
+    res.count("stored_series_checked")
+    if not (len(t) == X.shape[0] == Y.shape[0]):
+        res.violate("stored_series_inconsistent", "%s: %d stamps, %d rows of x, %d rows of y" % (tag, len(t), X.shape[0], Y.shape[0]), tag=tag)
+        return
+    if len(t) and ss.Output.n == 0:
+        if float(t[-1]) != float(ss.dae.t) or not (np.array_equal(X[-1], ss.dae.x) and np.array_equal(Y[-1], ss.dae.y)):
+            res.violate("stored_series_stale", "%s: the stored series ends at t=%r, the simulation is at t=%r; the last stored row %s the final state" % (
+                tag, float(t[-1]), float(ss.dae.t), "is" if (np.array_equal(X[-1], ss.dae.x) and np.array_equal(Y[-1], ss.dae.y)) else "is not"), tag=tag)
+        gd = ts.get_data(ss.Bus.v)
+        if gd is None or gd.shape[0] != len(t):
+            res.violate("stored_series_stale", "%s: get_data(Bus.v) returns %s rows for %d stamps" % (tag, None if gd is None else gd.shape[0], len(t)), tag=tag)
 
 
 def final_state(ss):
@@ -207,9 +228,12 @@ def run_plan(spec, res):
             try:
                 if mode == "extend":
                     log = EventLog(ss)
-                    ok = run_to(ss, cuts + [tf])
+                    ok = run_to(ss, cuts + [tf], inspect=(pi % 2 == 0))
                     log.close()
+                    if pi % 2 == 0:
+                        res.count("continuations_with_inspection_between_segments")
                     xs, ys, ts_ = final_state(ss)
+                    stored_series_consistent(res, ss, tag)
                     fold = status_fold(ss)
                 elif mode == "snapshot":
                     ok = True
